@@ -21,6 +21,8 @@ func main() {
 		featMain(os.Args[2:])
 	case "alpha":
 		alphaMain(os.Args[2:])
+	case "textio":
+		textioMain(os.Args[2:])
 	default:
 		fmt.Fprintf(os.Stderr, "unknown driver %q\n", os.Args[1])
 		os.Exit(2)
